@@ -29,6 +29,7 @@ Record st := mkSt {
   hs : list handle;          (* handle table: handle number = position *)
   auto : bool;               (* file.auto_update_timestamps *)
   ro : bool;                 (* opened read-only *)
+  nid : N;                   (* id supply: uuid4 never collides *)
 }.
 
 Definition res (A : Type) := (st * (A + err))%type.
@@ -43,20 +44,22 @@ Definition bind {A B} (m : M A) (k : A -> M B) : M B :=
 Notation "x <- m ;; k" := (bind m (fun x => k)) (at level 61, m at next level, right associativity).
 Notation "m ;;; k" := (bind m (fun _ => k)) (at level 61, right associativity).
 
-Definition get_st : M st := fun s => (s, inl s).
+(* a snapshot for reading; the open mode is masked (no call reads it: read-only shows only as
+   the failure of a write) *)
+Definition get_st : M st := fun s => (s, inl (mkSt (sto s) (hs s) (auto s) false (nid s))).
 Definition rd {A} (f : store -> A) : M A := fun s => (s, inl (f (sto s))).
 (* every write to the file fails on a read-only file *)
 Definition wr (f : store -> store) : M unit :=
   fun s => if ro s then (s, inr EReadOnly)
-           else (mkSt (f (sto s)) (hs s) (auto s) (ro s), inl tt).
+           else (mkSt (f (sto s)) (hs s) (auto s) (ro s) (nid s), inl tt).
 Definition wr_ret {A} (f : store -> store * A) : M A :=
   fun s => if ro s then (s, inr EReadOnly)
-           else let '(s', x) := f (sto s) in (mkSt s' (hs s) (auto s) (ro s), inl x).
+           else let '(s', x) := f (sto s) in (mkSt s' (hs s) (auto s) (ro s) (nid s), inl x).
 (* uuid4: not a write to the file *)
 Definition gen_id : M tok :=
-  fun s => let '(s', i) := fresh_id (sto s) in (mkSt s' (hs s) (auto s) (ro s), inl i).
+  fun s => (mkSt (sto s) (hs s) (auto s) (ro s) (N.succ (nid s)), inl (TI (nid s))).
 Definition new_handle (h : handle) : M N :=
-  fun s => (mkSt (sto s) (hs s ++ [h]) (auto s) (ro s), inl (N.of_nat (length (hs s)))).
+  fun s => (mkSt (sto s) (hs s ++ [h]) (auto s) (ro s) (nid s), inl (N.of_nat (length (hs s)))).
 Definition the_handle (i : N) : M handle :=
   fun s => match nth_error (hs s) (N.to_nat i) with
            | Some h => (s, inl h)
@@ -579,7 +582,7 @@ Definition api_set_attr (ph : N) (a : akind) (v : option tok) (now : Z) : M unit
 
 (* close + open again: the file content is what it is; all Python objects are gone *)
 Definition api_reopen (readonly : bool) : M N :=
-  fun s => (mkSt (sto s) [mkH 0%nat KFile 0%nat 0%nat] (auto s) readonly, inl 0).
+  fun s => (mkSt (sto s) [mkH 0%nat KFile 0%nat 0%nat] (auto s) readonly (nid s), inl 0).
 
 (* ---- the operation alphabet of histories *)
 Inductive op :=
@@ -599,10 +602,12 @@ Inductive op :=
 (* result of an op: ok (with the number of the new handle, if any) or an error class *)
 Inductive ores := ROk (h : option N) | RErr (e : err).
 
+(* in a read-only session every failure counts as "refused because read-only" *)
+Definition err_in (s : st) (e : err) : err := if ro s then EReadOnly else e.
 Definition wrapN (m : M N) : st -> st * ores :=
-  fun s => match m s with (s', inl h) => (s', ROk (Some h)) | (s', inr e) => (s', RErr e) end.
+  fun s => match m s with (s', inl h) => (s', ROk (Some h)) | (s', inr e) => (s', RErr (err_in s e)) end.
 Definition wrapU (m : M unit) : st -> st * ores :=
-  fun s => match m s with (s', inl _) => (s', ROk None) | (s', inr e) => (s', RErr e) end.
+  fun s => match m s with (s', inl _) => (s', ROk None) | (s', inr e) => (s', RErr (err_in s e)) end.
 
 Definition exec (o : op) (now : Z) : st -> st * ores :=
   match o with
@@ -616,16 +621,16 @@ Definition exec (o : op) (now : Z) : st -> st * ores :=
   | ORemove p l k => wrapU (api_remove p l k)
   | OSetLink p r x => wrapU (api_set_link p r x now)
   | OSetAttr p a v => wrapU (api_set_attr p a v now)
-  | OSetAuto b => fun s => (mkSt (sto s) (hs s) b (ro s), ROk None)
+  | OSetAuto b => fun s => (mkSt (sto s) (hs s) b (ro s) (nid s), ROk None)
   | OReopen r => wrapN (api_reopen r)
   end.
 
 (* a fresh file: root with "data" and "metadata" *)
 Definition init_store : store :=
-  let s0 := mkStore [empty_node] 0 in
+  let s0 := mkStore [empty_node] in
   let '(s1, _) := ensure_group s0 0%nat (TS s_data) in
   let '(s2, _) := ensure_group s1 0%nat (TS s_metadata) in s2.
-Definition init_st : st := mkSt init_store [mkH 0%nat KFile 0%nat 0%nat] true false.
+Definition init_st : st := mkSt init_store [mkH 0%nat KFile 0%nat 0%nat] true false 0.
 
 (* run a history; the clock of op number i is [t0 + i] *)
 Fixpoint run_from (ops : list op) (now : Z) (s : st) : st * list ores :=
